@@ -106,6 +106,13 @@ def proxTranslation (P : K → V → V) (y : V) (sig : K) (x : V) : V :=
 def proxArgScaling (P : K → V → V) (s : K) (sig : K) (x : V) : V :=
   (1 / s) • P (sig * (s * s)) (s • x)
 
+/-- `proximal_arg_scaling` including its guard: `scaling == 0` returns
+`proximal_const_func` (the identity). -/
+def proxArgScaling0 (P : K → V → V) (s : K) (sig : K) (x : V) : V :=
+  if s < 0 then proxArgScaling P s sig x
+  else if 0 < s then proxArgScaling P s sig x
+  else x
+
 /-- `FunctionalLeftScalarMult.proximal`: `self.functional.proximal(sigma * self.scalar)`. -/
 def proxLeftScale (P : K → V → V) (s : K) (sig : K) (x : V) : V :=
   P (sig * s) x
@@ -239,20 +246,30 @@ def projL1 (r : K) (x : List K) : Option (List K) :=
   else (projSimplex r u).map fun p => List.zipWith (fun pi xi => pi * signK xi) p x
 
 /-- Point-wise 2-norm of a power-space element with `d` components of length `m`, laid out
-component after component (`PointwiseNorm(space, 2)` with unit product-space weights). -/
-def pwNorm (sqrt : K → K) (d m : Nat) (x : List K) : List K :=
+component after component: `PointwiseNorm(space, 2)`, which takes its weights `pw` (one per
+component) from the product space: `sqrt(sum_k pw_k * x_k(i)^2)`. -/
+def pwNorm (sqrt : K → K) (pw : List K) (d m : Nat) (x : List K) : List K :=
   (List.range m).map fun i =>
-    sqrt (sumK ((List.range d).map fun k => let v := x.getD (k * m + i) 0; v * v))
+    sqrt (sumK ((List.range d).map fun k =>
+      let v := x.getD (k * m + i) 0; pw.getD k 1 * (v * v)))
+
+/-- Matrix-vector products for `proximal_composition` with a `MatrixOperator` on unweighted
+`rn`: `L x` and `L^T y` (the adjoint). -/
+def matVec (L : List (List K)) (x : List K) : List K :=
+  L.map fun row => sumK (List.zipWith (· * ·) row x)
+
+def matTVec (L : List (List K)) (n : Nat) (y : List K) : List K :=
+  (List.range n).map fun j => sumK (List.zipWith (fun row yi => row.getD j 0 * yi) L y)
 
 /-- Functional expression trees: the leaves are the proximal factories with their
 parameters, the nodes the calculus rules of `functional.py`. -/
 inductive Fn (K : Type) where
   | l1 (lam : K) (g : Option (List K))            -- proximal_l1
-  | l1l2 (d : Nat) (lam : K) (g : Option (List K)) -- proximal_l1_l2 on a power space X^d
+  | l1l2 (pw : List K) (d : Nat) (lam : K) (g : Option (List K)) -- proximal_l1_l2 on X^d
   | l2 (lam : K) (g : Option (List K))            -- proximal_l2
   | l2sq (lam : K) (g : Option (List K))          -- proximal_l2_squared
   | ccl1 (lam : K) (g : Option (List K))          -- proximal_convex_conj_l1 (lam already fudged)
-  | ccl1l2 (d : Nat) (lam : K) (g : Option (List K)) -- proximal_convex_conj_l1_l2
+  | ccl1l2 (pw : List K) (d : Nat) (lam : K) (g : Option (List K)) -- proximal_convex_conj_l1_l2
   | ccl2sq (lam : K) (g : Option (List K))        -- proximal_convex_conj_l2_squared
   | box (lo hi : Option (List K))                 -- proximal_box_constraint (bounds broadcast)
   | const                                         -- proximal_const_func
@@ -262,7 +279,8 @@ inductive Fn (K : Type) where
   | simplex (arr : Bool) (r : K)  -- IndicatorSimplex.proximal; arr: space has array weights
   | sumc (arr : Bool) (s : K)     -- IndicatorSumConstraint.proximal
   | huber (gam : K)                               -- proximal_huber (tensor space)
-  | huberG (d : Nat) (gam : K)                    -- proximal_huber on a power space X^d
+  | huberG (pw : List K) (d : Nat) (gam : K)      -- proximal_huber on a power space X^d
+  | comp (f : Fn K) (L : List (List K)) (mu : K)  -- proximal_composition with a matrix
   | klcc (lam : K) (g : Option (List K))          -- proximal_convex_conj_kl
   | trans (f : Fn K) (y : List K)                 -- FunctionalTranslation
   | argScale (f : Fn K) (s : K)                   -- FunctionalRightScalarMult
@@ -331,30 +349,30 @@ def Fn.prox (E : Env K) : Fn K → List K → Sig K → List K → List K
   | .linf cw, _, sig, x =>
       -- radius = sigma / w; proj_l1(x, radius, out); out.lincomb(-1, out, 1, x)
       List.zipWith (fun pi xi => -pi + xi) ((projL1 (sig.scalar / cw) x).getD x) x
-  | .huberG d gam, _, sig, x =>
+  | .huberG pw d gam, _, sig, x =>
       let m := x.length / d
-      let nrm := pwNorm E.sqrt d m x
+      let nrm := pwNorm E.sqrt pw d m x
       idxMap x fun i xi =>
         let t := nrm.getD (i % m) 0
         if t ≤ gam + sig.scalar then gam / (gam + sig.scalar) * xi
         else xi - sig.scalar * (xi / t)
   | .l2 lam g, w, sig, x =>
       (proxL2 (wnorm E.sqrt w) E.eps lam (g.map Vec.mk) sig.scalar (Vec.mk x)).data
-  | .l1l2 d lam g, _, sig, x =>
+  | .l1l2 pw d lam g, _, sig, x =>
       let m := x.length / d
       let diff := idxMap x fun i xi => xi - gAt g i
-      let den := (pwNorm E.sqrt d m diff).map fun t => maxK (t / (sig.scalar * lam)) 1
+      let den := (pwNorm E.sqrt pw d m diff).map fun t => maxK (t / (sig.scalar * lam)) 1
       idxMap x fun i xi => xi - (xi - gAt g i) / den.getD (i % m) 1
-  | .ccl1l2 d lam g, _, sig, x =>
+  | .ccl1l2 pw d lam g, _, sig, x =>
       let m := x.length / d
       let diff := idxMap x fun i xi => xi - sig.scalar * gAt g i
-      let den := (pwNorm E.sqrt d m diff).map fun t => maxK t lam / lam
+      let den := (pwNorm E.sqrt pw d m diff).map fun t => maxK t lam / lam
       idxMap diff fun i di => di / den.getD (i % m) 1
   | .trans f y, w, sig, x =>
       (proxTranslation (fun sg v => Vec.mk (f.prox E w (.sc sg) v.data))
         (Vec.mk y) sig.scalar (Vec.mk x)).data
   | .argScale f c, w, sig, x =>
-      (proxArgScaling (fun sg v => Vec.mk (f.prox E w (.sc sg) v.data))
+      (proxArgScaling0 (fun sg v => Vec.mk (f.prox E w (.sc sg) v.data))
         c sig.scalar (Vec.mk x)).data
   | .leftScale f c, w, sig, x => f.prox E w (sig.scale c) x
   | .quad f a u, w, sig, x =>
@@ -364,6 +382,10 @@ def Fn.prox (E : Env K) : Fn K → List K → Sig K → List K → List K
   | .conj f, w, sig, x =>
       (proxConvexConj (fun sg v => Vec.mk (f.prox E w (.sc sg) v.data))
         sig.scalar (Vec.mk x)).data
+  | .comp f L mu, w, sig, x =>
+      (proxComposition (fun sg v => Vec.mk (f.prox E w (.sc sg) v.data))
+        (fun v => Vec.mk (matVec L v.data)) (fun v => Vec.mk (matTVec L x.length v.data))
+        mu sig.scalar (Vec.mk x)).data
   | .sep n f rest, w, sig, x =>
       let (s1, s2) : Sig K × Sig K := match sig with
         | .sc s => (.sc s, .sc s)
@@ -381,9 +403,11 @@ def Fn.ok : Fn K → Sig K → Nat → Bool
   | .simplex _ r, _, n => 0 < n && decide (0 ≤ r)
   | .cclinf cw, _, n => 0 < n && decide (0 < cw)
   | .linf cw, sig, n => sig.isScalar && 0 < n && decide (0 ≤ sig.scalar) && decide (0 < cw)
-  | .huberG d _, sig, n => sig.isScalar && 0 < d && n % d == 0
+  | .huberG pw d _, sig, n => sig.isScalar && 0 < d && n % d == 0 && pw.length == d
+  | .comp f L _, sig, n => sig.isScalar && L.length == n && L.all (·.length == n) && f.ok sig n
   | .huber _, sig, _ | .klcc _ _, sig, _ | .l2 _ _, sig, _ => sig.isScalar
-  | .l1l2 d _ _, sig, n | .ccl1l2 d _ _, sig, n => sig.isScalar && 0 < d && n % d == 0
+  | .l1l2 pw d _ _, sig, n | .ccl1l2 pw d _ _, sig, n =>
+      sig.isScalar && 0 < d && n % d == 0 && pw.length == d
   | .trans f y, sig, n => sig.isScalar && y.length == n && f.ok sig n
   | .argScale f _, sig, n | .quad f _ _, sig, n | .conj f, sig, n =>
       sig.isScalar && f.ok sig n
@@ -394,6 +418,19 @@ def Fn.ok : Fn K → Sig K → Nat → Bool
        | .sc s => f.ok (.sc s) k && rest.ok (.sc s) (n - k)
        | .vec v => !v.isEmpty && f.ok (.sc (v.headD 0)) k && rest.ok (.vec v.tail) (n - k))
   | .nil, sig, n => n == 0 && (match sig with | .sc _ => true | .vec v => v.isEmpty)
+
+/-- Exceptions the code raises for inadmissible parameters (before any arithmetic):
+`FunctionalLeftScalarMult.proximal` raises `ValueError` for a negative scalar,
+`FunctionalQuadraticPerturb.proximal` raises `TypeError` for a negative quadratic coefficient.
+First error in evaluation order (outermost node first), `none` = no exception. -/
+def Fn.err : Fn K → Option String
+  | .leftScale f c => if c < 0 then some "err:ValueError" else f.err
+  | .quad f a _ => if a < 0 then some "err:TypeError" else f.err
+  | .trans f _ | .argScale f _ | .conj f | .comp f _ _ => f.err
+  | .sep _ f rest => match f.err with
+      | some e => some e
+      | none => rest.err
+  | _ => none
 
 end Lists
 
